@@ -146,6 +146,11 @@ TAINT_PROBES = [
     ('lambda', "f = lambda: globals()\n", True),
     ('argument of a call', "print(sorted(vars()))\n", True),
     ('star import', "from m import *\n", True),
+    ('star import inside try / except', "try:\n    from fastjson import *\nexcept ImportError:\n    from json import *\n", True),
+    ('star import under if', "if flag:\n    from m import *\n", True),
+    ('star import inside with', "with ctx:\n    from m import *\n", True),
+    ('trigger inside try / finally', "try:\n    pass\nfinally:\n    value = locals()\n", True),
+    ('trigger in a while condition', "while eval(cond):\n    pass\n", True),
     ('trigger first, then more code', "x = eval('1')\ndef f(a):\n    return a\nclass K:\n    y = 2\nz = [i for i in f(3)]\nprint(len(z))\n", True),
     ('class attribute of the same name plus a genuine use', "class E:\n    def eval(self, s):\n        return s\n    __call__ = eval\ndef run(e):\n    return eval(e)\n", True),
     ('class attribute named vars plus a genuine use', "class K:\n    vars = (1, 2)\n    req = frozenset(vars)\ndef show(o):\n    return vars(o)\n", True),
@@ -264,7 +269,7 @@ def frozen_end_to_end(model, rep):
             changed_controls += on != off
             rep.ok('C09.E2E', mi.loc(), 'control without a trigger: %s -> %s' % (label, 'renamed' if on != off else 'unchanged'), 'the probe is sensitive', key=key)
     rep.sensitive(changed_controls >= 3, 'none of the control modules without a trigger is renamed: the freeze rule cannot see anything')
-    rep.floor('C09.E2E', 20)
+    rep.floor('C09.E2E', 25)
 
 
 def trigger_positions(model, rep):
